@@ -952,6 +952,10 @@ def b_getattr(I, o, name, *default):
 
 
 def b_hasattr(I, o, name):
+    if name in ('__len__', '__iter__', '__getitem__', '__contains__') and isinstance(o, (tuple, str, VList, VDict, VSet, Rope)):
+        return True
+    if name in ('__len__', '__iter__', '__getitem__') and isinstance(o, Arr):
+        return o.shape != ()
     try:
         return I._getattr(o, name) is not MISSING
     except _im().VRaise:
